@@ -205,7 +205,7 @@ CHECKS = {
         'pass the extracted strict auditor, are one datum, the same datum for every block size.',
    note='the relation is the independent implementation; a second codebase is not available offline. The serde '
         'block writer (target_block_size) is audited here on corpus types and compared in full under C16. The decoder is laxer '
-        'than the relation (over-long varints, ignored byte sizes): not part of the statement, and proved so - C02_audit_only_spec_refuted exhibits 80 00, which decoder and auditor read as the long 0 and which encodes no value in the relation; the class is characterised in general by C02_decoder_padding_invariant / C02_padded_long_decodes (any terminating byte may become continuation + k empty groups + zero within ten bytes) and C02_padded_long_accepted_outside_spec (every such form of every long is accepted and encodes no value in the relation), and C02_decode_head_padding_invariant (the datum decoder cannot tell padded from minimal at the head of any schema that starts with a variable-length integer: numbers, lengths, symbol and branch indices); padded integers in every position, generated with exactly that padding and across the ten-byte limit, are replayed on the implementation on every run (tried by hand: moving decode_variable's limit from ten to nine bytes is reported by this class, replay with the padded input) (class overlong: both readers must read them as the minimal form); the auditor is what sees a '
+        'than the relation (over-long varints, ignored byte sizes): not part of the statement, and proved so - C02_audit_only_spec_refuted exhibits 80 00, which decoder and auditor read as the long 0 and which encodes no value in the relation; the class is characterised in general by C02_decoder_padding_invariant / C02_padded_long_decodes (any terminating byte may become continuation + k empty groups + zero within ten bytes) and C02_padded_long_accepted_outside_spec (every such form of every long is accepted and encodes no value in the relation), and C02_decode_head_padding_invariant (the datum decoder cannot tell padded from minimal at the head of any schema that starts with a variable-length integer: numbers, lengths, symbol and branch indices); padded integers in every position, generated with exactly that padding and across the ten-byte limit, are replayed on the implementation on every run (tried by hand: moving the limit of decode_variable from ten to nine bytes is reported by this class, replay with the padded input) (class overlong: both readers must read them as the minimal form); the auditor is what sees a '
         'wrong announced size. A schema with a leading-dot reference inside a namespace cannot be given a writer (F26): known class.',
    technique='Coq proof (inductive specification relation; inversion + induction on fuel) + certified-layout differential check',
    design='DESIGN.md 5/C02'),
